@@ -528,12 +528,7 @@ func resolveImageResultType(module *Module, fn *Function, imageHandle Expression
 	case ImageClassSampled:
 		// Only use SampledKind if explicitly set (non-zero and non-Sint default).
 		// Many image types share the same type handle and don't have SampledKind set correctly.
-		if img.SampledKind == ScalarUint {
-			scalarKind = ScalarUint
-		} else if img.SampledKind == ScalarFloat {
-			scalarKind = ScalarFloat
-		}
-		// Default to Float for ScalarSint (which is the zero value / default)
+		scalarKind = img.SampledKind
 	}
 
 	return TypeResolution{Value: VectorType{
